@@ -114,6 +114,43 @@ type MessageBadNested struct {
 
 func (*MessageBadNested) GetID() uint32 { return 60015 }
 
+type vfI8 int8
+
+type MessageBadEnumArrayElem struct {
+	A [4]vfI8 `mavenum:"int8"`
+}
+
+func (*MessageBadEnumArrayElem) GetID() uint32 { return 60016 }
+
+// user messages around the one-byte / two-byte / three-byte id boundaries
+type MessageVfId254 struct{ A uint8 }
+
+func (*MessageVfId254) GetID() uint32 { return 254 }
+
+type MessageVfId255 struct{ A uint16 }
+
+func (*MessageVfId255) GetID() uint32 { return 255 }
+
+type MessageVfId255Dup struct{ B uint32 }
+
+func (*MessageVfId255Dup) GetID() uint32 { return 255 }
+
+type MessageVfId256 struct{ A uint32 }
+
+func (*MessageVfId256) GetID() uint32 { return 256 }
+
+type MessageVfId65535 struct{ A uint8 }
+
+func (*MessageVfId65535) GetID() uint32 { return 65535 }
+
+type MessageVfId65536 struct{ A uint16 }
+
+func (*MessageVfId65536) GetID() uint32 { return 65536 }
+
+type MessageVfId16777215 struct{ A uint32 }
+
+func (*MessageVfId16777215) GetID() uint32 { return 16777215 }
+
 type MessageFine struct {
 	A uint16
 	B string `mavlen:"4"`
@@ -132,6 +169,45 @@ func malformed() map[string]message.Message {
 		"enum-on-int16": &MessageBadEnumInt16{}, "mavlen-not-a-number": &MessageBadMavlen{},
 		"field-named-enum-untagged": &MessageBadNamedEnum{}, "field-named-uint8": &MessageBadNamedU8{}, "field-named-string": &MessageBadNamedString{},
 		"field-named-float-array": &MessageBadNamedFloat{}, "field-pointer": &MessageBadPointer{}, "field-nested-struct": &MessageBadNested{},
+		"enum-array-of-non-uint64": &MessageBadEnumArrayElem{},
+	}
+}
+
+// c17boundaryIDs: a user dialect whose ids sit on the 8/16/24-bit boundaries: every id is found, its neighbours are not,
+// a second message with one of these ids is refused.
+func c17boundaryIDs(rep *vh.Report) {
+	msgs := []message.Message{&MessageVfId254{}, &MessageVfId255{}, &MessageVfId256{}, &MessageVfId65535{}, &MessageVfId65536{}, &MessageVfId16777215{}, &common.MessageHeartbeat{}}
+	rw := &dialect.ReadWriter{Dialect: &dialect.Dialect{Version: 1, Messages: msgs}}
+	if err, p := safeInit(rw); err != nil || p != nil {
+		rep.Violation("dialect=user what=init", fmt.Sprintf("a well-formed user dialect with ids on the byte boundaries was refused: %v %v", err, p), nil)
+		return
+	}
+	present := map[uint32]message.Message{}
+	for _, m := range msgs {
+		present[m.GetID()] = m
+	}
+	for _, id := range []uint32{0, 1, 253, 254, 255, 256, 257, 511, 65534, 65535, 65536, 65537, 16777214, 16777215, 16777216, 1<<32 - 1} {
+		rep.Eval(1)
+		rep.Count("boundary_id_lookups", 1)
+		got := rw.GetMessage(id)
+		want := present[id]
+		switch {
+		case want == nil && got != nil:
+			rep.Violation("dialect=user what=lookup", fmt.Sprintf("GetMessage(%d) returns a codec although the dialect has no message with that id", id), nil)
+		case want != nil && got == nil:
+			rep.Violation("dialect=user what=lookup", fmt.Sprintf("GetMessage(%d) returns nothing although the dialect defines a message with that id", id), nil)
+		case want != nil && reflect.TypeOf(got.Message) != reflect.TypeOf(want):
+			rep.Violation("dialect=user what=lookup", fmt.Sprintf("GetMessage(%d) returns the codec of %T", id, got.Message), nil)
+		}
+	}
+	for pos := 0; pos <= len(msgs); pos++ {
+		dup := append(append(append([]message.Message{}, msgs[:pos]...), &MessageVfId255Dup{}), msgs[pos:]...)
+		rep.Eval(1)
+		err, p := safeInit(&dialect.ReadWriter{Dialect: &dialect.Dialect{Version: 1, Messages: dup}})
+		if p != nil || err == nil {
+			rep.Violation("dialect=user what=accepts:duplicate-id", fmt.Sprintf("a dialect with two messages of id 255 was accepted by Initialize (duplicate inserted at position %d; panic: %v)", pos, p), nil)
+			break
+		}
 	}
 }
 
@@ -414,6 +490,7 @@ func TestC17(t *testing.T) {
 	// a user package named like a shipped one ("common") whose messages carry shipped names and ids with other definitions,
 	// used after (and next to) the shipped dialects in this process: lookups return the codec of *that* type
 	c17twinPackage(rep, r)
+	c17boundaryIDs(rep)
 
 	// rejection at Initialize
 	bad := malformed()
